@@ -124,7 +124,8 @@ class World:
                     ops += [('meta', live[0], 1), ('meta', live[0], 65535),
                             ('meta', live[0], 'user'),
                             ('meta', live[0], 'desc'),
-                            ('meta', live[0], 'ext')]
+                            ('meta', live[0], 'ext'),
+                            ('meta', live[0], 'extkeys')]
             elif k == 'empty':
                 ops.append(('empty',))
             elif k == 'del':
@@ -298,7 +299,12 @@ class World:
                                   self.rec(spec, op[1]))],
                                 user=b'usr' if n == 'user' else b'',
                                 desc=b'dsc' if n == 'desc' else b'',
-                                ext={'k': 'e'} if n == 'ext' else None)
+                                ext={'k': 'e'} if n == 'ext' else
+                                # extension keys named like the entries the
+                                # storage computes itself
+                                {'id': b'x', 'description': b'y',
+                                 'user_name': b'z', 'tid': b't',
+                                 'k': 'e'} if n == 'extkeys' else None)
             return self.txn([('store', o, m.current_serial(o),
                               self.rec(spec, op[1]))],
                             user=b'u' * n, desc=b'd' * n,
